@@ -17,7 +17,7 @@ const char* vf_driver() { return "c15_davidson"; }
 static const LD C = 200;
 
 static const char* MCLS[] = {"diagonally-dominant", "strongly-dominant", "not-dominant", "block-diagonal", "isolated-diagonal-entries", "diagonal", "dominant-with-repeated-diagonal"};
-static const char* GUESS[] = {"none", "orthonormal", "non-orthonormal", "unit-vectors-of-decoupled-coordinates"};
+static const char* GUESS[] = {"none", "orthonormal", "non-orthonormal", "unit-vectors-of-decoupled-coordinates", "rank-deficient(repeated/zero/dependent-column)"};
 static const SortRule DRULES[4] = {SortRule::LargestAlge, SortRule::SmallestAlge, SortRule::LargestMagn, SortRule::SmallestMagn};
 
 static MatXd gen(vf::Rng& r, int n, int cls, std::vector<int>& decoupled)
@@ -74,7 +74,7 @@ static void run(vf::Ctx& ctx, const MatXd& A, Op& op, const char* opname, int cl
     int ninit = (int) r.range(nev, std::max(nev, std::min(n - nev, 2 * nev + 2)));
     int nmax = (int) r.range(std::max(ninit + nev, 2 * nev), std::max(ninit + nev, std::min(n, 10 * nev)));
     if (ninit + nev > n) { ninit = std::max(nev, n - nev); }
-    int gk = (int) r.range(0, 3);
+    int gk = (int) r.range(0, tag.empty() ? 4 : 3);   // (the fixed corpus keeps its cases: four kinds there)
     if (gk == 3 && decoupled.empty()) gk = 1;
     long set_max = -1, set_corr = -1;
     auto info = [&]() {
@@ -108,6 +108,18 @@ static void run(vf::Ctx& ctx, const MatXd& A, Op& op, const char* opname, int cl
             MatXd G(n, ninit);
             if (gk == 1) { G = vg::rand_orth(r, n).leftCols(ninit); }
             else if (gk == 2) { G = vg::rand_gauss(r, n, ninit); for (int j = 0; j < ninit; j++) G.col(j) *= std::pow(10.0, r.uni(-1, 1)); }
+            else if (gk == 4)
+            {
+                // a spanning set that is exactly rank-deficient: a repeated column, a zero column, or an exact combination of two others
+                G = vg::rand_gauss(r, n, ninit);
+                if (ninit >= 2)
+                {
+                    const int j = (int) r.range(1, ninit - 1), kind = (int) r.range(0, 2);
+                    if (kind == 0) G.col(j) = G.col(j - 1);
+                    else if (kind == 1) G.col(j).setZero();
+                    else G.col(j) = ninit >= 3 ? MatXd(2.0 * G.col(0) - G.col(j == 1 ? 2 : 1)).col(0) : MatXd(2.0 * G.col(0)).col(0);
+                }
+            }
             else
             {
                 // exact Ritz vectors in the initial space: unit vectors of decoupled coordinates first, random orthonormal completion
